@@ -270,6 +270,7 @@ class _Stats(object):
         self.unspecified = {}
         self.violations = []     # (idx, case, outdict)
         self.harness = []        # (idx, detail)
+        self.crashed_isolated = []
         self.samples = []
         self.variants = {}
         self.wall = 0.0
@@ -290,6 +291,7 @@ class _Stats(object):
         self.merge_counts(self.variants, part['variants'])
         self.violations.extend(part['violations'])
         self.harness.extend(part['harness'])
+        self.crashed_isolated.extend(part.get('crashed', []))
         if len(self.samples) < 3:
             self.samples.extend(part['samples'][:3 - len(self.samples)])
 
@@ -315,9 +317,16 @@ def _run_chunk(check, verif_seed, tier, indices, slot, progress):
         except Exception:
             tb = traceback.format_exc()
             outs = [Outcome().harness(tb) for _ in cases]
+    isolate = getattr(check, 'isolate', False)
     for n, (idx, case) in enumerate(zip(indices, cases)):
         if batched:
             out = outs[n]
+        elif isolate:
+            struct.pack_into('<q', progress, slot * 8, idx)
+            out = _run_isolated(check, case)
+            if isinstance(out, str):
+                part.setdefault('crashed', []).append((idx, out, list(indices[:n])))
+                continue
         else:
             struct.pack_into('<q', progress, slot * 8, idx)
             try:
@@ -349,6 +358,8 @@ def _run_chunk(check, verif_seed, tier, indices, slot, progress):
             if len(part['violations']) < 3:
                 if out.schedule is not None:
                     case = dict(case, schedule=out.schedule)
+                if getattr(check, 'history_dependent', False):
+                    case = dict(case, _prelude=list(indices[:n]))
                 part['violations'].append((idx, case, out.as_dict()))
         elif out.verdict == 'harness':
             if len(part['harness']) < 3:
@@ -357,6 +368,48 @@ def _run_chunk(check, verif_seed, tier, indices, slot, progress):
             part['samples'].append(out.sample)
     struct.pack_into('<q', progress, slot * 8, -1)
     return part
+
+
+def _run_isolated(check, case):
+    """execute one case in a forked child of this worker: every run starts from the same
+    (pristine) process image, so a replay in a fresh process sees the same initial state.
+    Returns an Outcome, or a string describing how the child died."""
+    rfd, wfd = os.pipe()
+    pid = os.fork()
+    if pid == 0:
+        code = 3
+        try:
+            os.close(rfd)
+            try:
+                out = check.execute(case)
+            except HarnessError as e:
+                out = Outcome().harness('HarnessError: %s' % (e,))
+            except Exception:
+                out = Outcome().harness(traceback.format_exc())
+            extra = getattr(out, 'nt_digests', None)
+            d = dict(out.__dict__)
+            data = pickle.dumps(d, 2)
+            with os.fdopen(wfd, 'wb') as f:
+                f.write(data)
+            code = 0
+        finally:
+            os._exit(code)
+    os.close(wfd)
+    chunks = []
+    while True:
+        b = os.read(rfd, 1 << 16)
+        if not b:
+            break
+        chunks.append(b)
+    os.close(rfd)
+    _, status = os.waitpid(pid, 0)
+    if os.WIFSIGNALED(status):
+        return 'killed by signal %d' % os.WTERMSIG(status)
+    if os.WEXITSTATUS(status) != 0 or not chunks:
+        return 'exit status %d' % os.WEXITSTATUS(status)
+    out = Outcome()
+    out.__dict__.update(pickle.loads(b''.join(chunks)))
+    return out
 
 
 def run_batch(check, verif_seed, tier, index_iter, deadline=None, workers=None,
@@ -453,7 +506,7 @@ def run_batch(check, verif_seed, tier, index_iter, deadline=None, workers=None,
                     else:
                         desc = 'exit status %d' % os.WEXITSTATUS(status)
                     if cur >= 0:
-                        crashed.append((cur, desc))
+                        crashed.append((cur, desc, list(indices[:indices.index(cur)]) if cur in indices else []))
                         rest = [i for i in indices if i != cur]
                         # re-run the others (before/after), minus the culprit
                         if rest:
@@ -472,16 +525,17 @@ def run_batch(check, verif_seed, tier, index_iter, deadline=None, workers=None,
                 del live[pid]
                 free_slots.append(slot)
                 if cur >= 0:
-                    hung.append(cur)
+                    hung.append((cur, list(indices[:indices.index(cur)]) if cur in indices else []))
                     rest = [i for i in indices if i != cur]
                     if rest:
                         pending_retry.append(rest)
                 else:
                     stats.harness.append((-1, 'worker hung outside a run'))
-        if len(stats.violations) >= 8 or len(crashed) >= 4 or len(hung) >= 2:
+        if len(stats.violations) >= 8 or len(crashed) + len(stats.crashed_isolated) >= 4 or len(hung) >= 2:
             stop_new = True
             pending_retry[:] = []
     stats.wall = time.time() - t0
+    crashed.extend(stats.crashed_isolated)
     return stats, crashed, hung
 
 
@@ -527,10 +581,48 @@ def write_replay(check, case, outd, tier, verif_seed, tag=None, minimised=None):
     return path
 
 
+def _execute_after_prelude(check, cand, ctx):
+    """forked child: prelude, then the candidate; returns an Outcome or None (child died)"""
+    verif_seed, tier = ctx
+    rfd, wfd = os.pipe()
+    pid = os.fork()
+    if pid == 0:
+        code = 3
+        try:
+            os.close(rfd)
+            run_prelude(check, cand, verif_seed, tier)
+            out = check.execute(cand)
+            with os.fdopen(wfd, 'wb') as f:
+                f.write(pickle.dumps(dict(out.__dict__), 2))
+            code = 0
+        finally:
+            os._exit(code)
+    os.close(wfd)
+    chunks = []
+    while True:
+        b = os.read(rfd, 1 << 16)
+        if not b:
+            break
+        chunks.append(b)
+    os.close(rfd)
+    _, status = os.waitpid(pid, 0)
+    if status != 0 or not chunks:
+        return None
+    out = Outcome()
+    out.__dict__.update(pickle.loads(b''.join(chunks)))
+    return out
+
+
+hd_ctx = (0, 'quick')
+
+
 def minimise(check, case, outd, budget=400):
     """Shrink while the same clause is violated.  Uses the check's
     shrink_candidates (a generator that is restarted after each success)."""
     clause = outd['clause']
+    hd = getattr(check, 'history_dependent', False) and case.get('_prelude')
+    if hd:
+        budget = min(budget, 60)
     left = [budget]
     execs = 0
     cur = case
@@ -544,7 +636,12 @@ def minimise(check, case, outd, budget=400):
             left[0] -= 1
             execs += 1
             try:
-                o = check.execute(cand)
+                if hd:
+                    o = _execute_after_prelude(check, cand, hd_ctx)
+                    if o is None:
+                        continue
+                else:
+                    o = check.execute(cand)
             except Exception:
                 continue
             if o.verdict == 'violation' and o.clause == clause:
@@ -581,10 +678,25 @@ def load_replay(path):
     return doc
 
 
+def run_prelude(check, case, verif_seed, tier):
+    """History-dependent checks (process-wide state in the code under test, e.g. the closure
+    free list): a run is only reproducible together with the runs that preceded it in its
+    worker.  The replay file names them; they are regenerated from their seeds and re-executed."""
+    for idx in case.get('_prelude') or []:
+        seed = derive(verif_seed, check.pid, tier, idx)
+        c = check.generate(PRNG(seed), idx, tier)
+        c.setdefault('run_index', idx)
+        try:
+            check.execute(c)
+        except Exception:
+            pass
+
+
 def main_replay(check, path):
     doc = load_replay(path)
     check.prepare('replay')
     case = doc['case']
+    run_prelude(check, case, doc.get('verif_seed', 0), doc.get('tier', 'quick'))
     out = check.execute(case)
     quiet = os.environ.get('VERIF_REPLAY_QUIET')
     if out.verdict == 'violation':
@@ -602,6 +714,8 @@ def main_replay(check, path):
 
 def main_check(check, tier, verif_seed):
     t0 = time.time()
+    global hd_ctx
+    hd_ctx = (verif_seed, tier)
     check.prepare(tier)
     t_built = time.time()
     if tier == 'quick':
@@ -618,11 +732,14 @@ def main_check(check, tier, verif_seed):
     harness_msgs = list(stats.harness)
 
     # crashed / hung runs: triage in a fresh process
-    for idx, desc in crashed[:3]:
+    for ent in crashed[:3]:
+        idx, desc = ent[0], ent[1]
         seed = derive(verif_seed, check.pid, tier, idx)
         case = check.generate(PRNG(seed), idx, tier)
         case.setdefault('run_index', idx)
         case.setdefault('run_seed', '0x%016x' % seed)
+        if getattr(check, 'history_dependent', False) and len(ent) > 2:
+            case['_prelude'] = ent[2]
         outd = dict(verdict='violation', clause=check.crash_clause, op=None,
                     detail='worker process died (%s) while executing this run' % desc, digest='')
         path = write_replay(check, case, outd, tier, verif_seed, tag='crash')
@@ -634,11 +751,13 @@ def main_check(check, tier, verif_seed):
         else:
             harness_msgs.append((idx, 'worker died (%s); fresh-process replay says %s: %s'
                                  % (desc, st, text[-500:])))
-    for idx in hung[:2]:
+    for idx, hprel in hung[:2]:
         seed = derive(verif_seed, check.pid, tier, idx)
         case = check.generate(PRNG(seed), idx, tier)
         case.setdefault('run_index', idx)
         case.setdefault('run_seed', '0x%016x' % seed)
+        if getattr(check, 'history_dependent', False):
+            case['_prelude'] = hprel
         outd = dict(verdict='violation', clause=check.hang_clause, op=None,
                     detail='run did not terminate', digest='')
         path = write_replay(check, case, outd, tier, verif_seed, tag='hang')
